@@ -1169,6 +1169,29 @@ func scoLocalTypes(c *Ctx, r *R, clause *ast.CaseClause, conds string, pos strin
 			return true
 		})
 	}
+	// ... on every path: End has no return ahead of the trimming (a fast exit "back at package
+	// level" leaves the function's body-level types in the table for every later function)
+	if end := c.Func("compiler.End"); end != nil && pops {
+		var trimPos token.Pos
+		ast.Inspect(end.Body, func(n ast.Node) bool {
+			if as, ok := n.(*ast.AssignStmt); ok && len(as.Lhs) == 1 && strings.HasSuffix(nosp(c.Src(as.Lhs[0])), ".localTypes") && !trimPos.IsValid() {
+				trimPos = as.Pos()
+			}
+			return true
+		})
+		early := false
+		ast.Inspect(end.Body, func(n ast.Node) bool {
+			if _, isLit := n.(*ast.FuncLit); isLit {
+				return false
+			}
+			if ret, ok := n.(*ast.ReturnStmt); ok && trimPos.IsValid() && ret.Pos() < trimPos {
+				early = true
+			}
+			return true
+		})
+		r.check(!early, "local types end with their block (every path)", c.Pos(end), "no return ahead of the trimming",
+			"compiler.End returns before it has dropped the local types of the closing block on some path: the body-level types of a function stay in the table, and every function compiled later resolves that name to the leaked local type instead of the package-level one — the result depends on which function is declared (or which file sorts) first")
+	}
 	r.check(pops, "local types end with their block", pos, "compiler.End drops the local types of the closing block",
 		"compiler.End no longer drops the entries of the closing block from the local-type table: a type declared in an inner block keeps capturing the name for the rest of the function")
 	// the declaration records the entry
@@ -1463,6 +1486,11 @@ func ruleScoKeys(c *Ctx, r *R) {
 					fromPath := strings.Contains(src, "expPrefix(") && !strings.Contains(src, "pkgPrefix(") && !strings.Contains(src, ".FuncName")
 					r.check(fromPath, "type scope from the import path ("+lab+")", c.Pos(as), "the scope of function-local types is built with expPrefix",
 						"compile(\""+lab+"\") builds the scope that keys function-local types from the package *name* (pkgPrefix / FuncName): local types of net/codec.New and disk/codec.New (both `package codec`) share one global — their fields are merged (a struct declared {path; id} prints &{id:1 host: ready:false path:/tmp/x})")
+					if lab == "method" {
+						perMethod := strings.Contains(src, "Tokens[methodName]") || strings.Contains(src, "Tokens[1]")
+						r.check(perMethod, "method scope names the method", c.Pos(as), "each method is a scope of its own",
+							"compile(\"method\") keys the local types of every method of a receiver type by the type alone: two methods that each declare a local `type rec ..` share one global — the declarations are merged (instances gain the other type's fields, a shared field name takes the zero value and type of whichever ran last)")
+					}
 					if lab == "lambda" {
 						full := strings.Contains(src, ".Pos.String()") || strings.Contains(src, ".Filename")
 						r.check(full, "literal scope from the full position", c.Pos(as), "a function literal's scope includes the file it is written in",
